@@ -118,7 +118,20 @@ impl Prop for C10 {
         let cfg = gen_cfg(t);
         let pool_n = t.range(2, 5);
         let mut pool: Vec<Section> = Vec::new();
-        for _ in 0..pool_n {
+        // a stream of plain `diff -u` output (concatenated runs of diff, a hand-made patch file):
+        // there the "---" line is all that separates two file sections
+        let plain_stream = t.chance(1, 6);
+        ctx.class_if(plain_stream, "plain-diff-stream");
+        if plain_stream {
+            let case = crate::gen::diff::gen_plain_case(t, &o);
+            for it in case.items {
+                if let crate::gen::diff::Item::Section(mut s) = it {
+                    s.old_mode = String::new(); // (no `diff -ru` line: the bare form)
+                    pool.push(s);
+                }
+            }
+        }
+        for _ in 0..(if plain_stream { 0 } else { pool_n }) {
             // (combined diffs, some with merge-conflict regions in 2-way or diff3 style, are git
             // file sections too)
             let k = if t.chance(1, 6) { SK::Combined } else { *t.pick(KINDS) };
